@@ -252,6 +252,11 @@ def validate_trace(trace_module, trace_path, scratch, cfg=None, group_marker=Non
             m = re.match(r'<<"SUMMARY", (\d+), (\d+), (\d+), (\d+)', summ[-1])
             if m:
                 v.events += int(m.group(1))
+                # the counter register is the authority: printed MISMATCH tuples can be lost when TLC wraps long lines
+                missing = int(m.group(2)) - len(r.printed("MISMATCH"))
+                for _ in range(max(0, missing)):
+                    v.mismatches.append(None)
+                    v.by_info["(unparsed)"] = v.by_info.get("(unparsed)", 0) + 1
                 v.skipped += int(m.group(4))
                 if int(m.group(1)) != n:
                     v.failures.append((p, "trace not fully consumed: %s of %d lines\n%s" % (m.group(1), n, r.tail(20))))
